@@ -321,7 +321,8 @@ pub fn cases(ctx: Ctx) -> Vec<HbCase> {
                         continue;
                     }
                     // a 3000-byte packet takes 120 ms on the slow link: only where that is well inside the timeout
-                    if traffic == 3 && (timeout_ms < 1000 || (quick && fi > 1)) {
+                    // (and the link itself adds 10 ms per 256-byte piece to the round trip: keep clear of the timeout)
+                    if traffic == 3 && (timeout_ms < 1000 || (quick && fi > 1) || *frac > 0.76) {
                         continue;
                     }
                     let mk = |silence: Option<u64>, label: &str| HbCase { interval_ms, timeout_ms, delay_ms, silence_at_ms: silence, traffic, label: label.to_string() };
